@@ -18,6 +18,25 @@ CHECKS = {
          "shapes, which a small complete alphabet contains by construction.",
          "Exactness on small integer/half-integer grids; rows fully finite or fully NaN; bounded n (see evidence).",
          "DESIGN.md section 3/C03"),
+
+ "C01": ("exploration", "E1",
+         "bounded exhaustive enumeration of lattice scenes against an exact integer clipping / even-odd oracle",
+         "Every element of complete lattice shape families (all vertex sequences, every simple lattice polygon in "
+         "every rotation and direction, holes and multi-part pools, missing/empty) x every lattice box x 4 corner "
+         "orders x 5 subtypes x forms (array, inds, sliced, scalar, GeoSeries) is evaluated and compared bit-for-bit "
+         "with an exact oracle that is structurally different from the kernels. The decisive ties (box edge through "
+         "a vertex, collinear edges, box in a hole) are measure-zero for sampling but are all in the lattice alphabet.",
+         "Lattice size G (see evidence), <=4/5 vertices, valid polygons, positive-area boxes for line/polygon kinds; "
+         "prange kernels run with one numba thread (thread-count independence is C18).",
+         "DESIGN.md section 3/C01"),
+ "C02": ("exploration", "E1",
+         "bounded exhaustive enumeration of (shape, point) lattice scenes against an exact classification oracle",
+         "Every shape of the lattice families x EVERY integer lattice point (so every ray-through-vertex / "
+         "along-horizontal-edge / collinear-beyond-end case occurs) x point subtypes x forms (scalar, array, array "
+         "with missing points, sliced, inds, GeoSeries), compared with exact classification; on-ring points only "
+         "checked for agreement between forms.",
+         "Lattice size G (see evidence); valid polygons; shapes non-empty.",
+         "DESIGN.md section 3/C02"),
 }
 
 NOT_YET = {}
